@@ -206,6 +206,7 @@ class Module:
             self.tree = ast.parse(self.src, filename=path)
         except SyntaxError as e:
             raise AnalysisError(f"cannot parse {path}: {e}") from e
+        _inline_return_temporaries(self.tree)
         set_parents(self.tree)
         self.imports: dict[str, str] = {}
         self.classes: dict[str, ClassInfo] = {}
@@ -235,6 +236,31 @@ def _decorator_kind(fn: ast.FunctionDef) -> str:
         elif name.endswith("overload"):
             kind = "overload"
     return kind
+
+
+def _inline_return_temporaries(tree: ast.AST) -> None:
+    """Normal form of the analysed tree: `t = <expr>; return t` (the return immediately follows the assignment, so
+    nothing can read t afterwards) is read as `return <expr>`.  The rules then see the same thing whether or not a returned expression was first bound to a local
+    (extract-variable / inline-variable refactorings do not change a verdict)."""
+    for fn in [n for n in ast.walk(tree) if isinstance(n, (ast.FunctionDef, ast.AsyncFunctionDef))]:
+        counts: dict[str, int] = {}
+        for x in ast.walk(fn):
+            if isinstance(x, ast.Name):
+                counts[x.id] = counts.get(x.id, 0) + 1
+        for node in ast.walk(fn):
+            for fld in ("body", "orelse", "finalbody"):
+                blk = getattr(node, fld, None)
+                if not (isinstance(blk, list) and len(blk) >= 2):
+                    continue
+                i = 0
+                while i + 1 < len(blk):
+                    a, r = blk[i], blk[i + 1]
+                    if isinstance(a, ast.Assign) and len(a.targets) == 1 and isinstance(a.targets[0], ast.Name) and isinstance(r, ast.Return) \
+                            and isinstance(r.value, ast.Name) and r.value.id == a.targets[0].id:
+                        new_r = ast.copy_location(ast.Return(value=a.value), r)
+                        blk[i : i + 2] = [new_r]
+                    else:
+                        i += 1
 
 
 class Repo:
